@@ -5,7 +5,7 @@
    execution after every action; `no_err err_Cxx m` = the monitor reported no error of this property's class;
    `no_raise ls` = no request ended in an exception. *)
 From Coq Require Import ZArith List Bool.
-From CS Require Ops RevConv RevBridge4 RevolveRun Refuted DiskRun DiskBridge3 HRevRun HRevTop GenLang GenBasic GenLang2 GenTwo GenLang3 GenMulti GenLang4 GenConv GenLang5 GenMixed SeqGenSpec HSeqGenSpec HoptGenSpec OptInfGenSpec Opt0GenSpec.
+From CS Require Ops RevConv RevBridge4 RevolveRun Refuted DiskRun DiskBridge3 HRevRun HRevTop GenLang GenBasic GenLang2 GenTwo GenLang3 GenMulti GenLang4 GenConv GenLang5 GenMixed SeqGenSpec HSeqGenSpec ArgminGenSpec HoptGenSpec OptInfGenSpec Opt0GenSpec.
 From CS Require Import Actions NAdvance Multistage Exec Sched RunFacts Projections BasicInv MultistageRun AllocTotal TLBridge MixBridge.
 Import ListNotations.
 Open Scope Z_scope.
@@ -372,6 +372,24 @@ Theorem C02_hrevolve_sequence_is_source :
 Proof. exact (@HSeqGenSpec.hrevolve_is_source). Qed.
 Print Assumptions C02_hrevolve_sequence_is_source.
 End M_C02_hrevolve_sequence_is_source.
+
+(* ... argmin of basic_functions.py, rendered once over any element type with its <= (Gen/ArgminGen.v): on integers it is RevSeq.argmin with IndexError on the empty list (py_argmin, as the sequence generators above call it) *)
+Module M_C02_argmin_is_source.
+Import ArgminGenSpec.
+Theorem C02_argmin_is_source :
+  forall l : list Z, argmin_shape Z Z.leb l = SeqGenSpec.py_argmin l.
+Proof. exact (@ArgminGenSpec.argmin_shape_is_model). Qed.
+Print Assumptions C02_argmin_is_source.
+End M_C02_argmin_is_source.
+
+(* ... and on costs that may be infinite HRevSeq.argmin *)
+Module M_C02_argmin_costs_is_source.
+Import ArgminGenSpec.
+Theorem C02_argmin_costs_is_source :
+  forall l : list HRevSeq.cost, argmin_shape HRevSeq.cost HRevSeq.cle l = HSeqGenSpec.py_cargmin l.
+Proof. exact (@ArgminGenSpec.cargmin_shape_is_model). Qed.
+Print Assumptions C02_argmin_costs_is_source.
+End M_C02_argmin_costs_is_source.
 
 (* ... and the cost tables of H-Revolve: get_hopt_table rendered by the translator for two storage levels (Gen/HoptGen.v: assignments into opt[k][l][m] / optp[k][l][m] are hset, reads hget, float(inf) is Inf, l * (l + 1) / 2 exact division), proved equal to HRevSeq.get_hopt_table for all arguments *)
 Module M_C02_hopt_table_is_source.
